@@ -1,11 +1,12 @@
 /-
   C06 — the device description read by the client equals the device's configuration.
-  STATEMENTS (to be proved; file moves to NxsModel/Props/C06.lean when no `sorry` is left).
+  Property theorems only (helper lemmas in Lemmas/).
   Names are UTF-8 byte strings (the harness encodes text); "no NUL" is a hypothesis on the bytes.
 -/
 import NxsModel.Info
 import NxsModel.Spec.Wire
 import NxsModel.Lemmas.Serial
+import NxsModel.Lemmas.Info
 namespace Nxs.C06
 open Nxs Nxs.Spec Nxs.Info
 
@@ -20,11 +21,12 @@ def i32le (r : Int) : Bytes := leBytes 4 (r % 4294967296).toNat
 theorem cmninfo_rt (chmax flags rxp : Nat) (h1 : chmax ≤ 255) (h2 : flags ≤ 255) (h3 : rxp ≤ 255) :
     cmninfoEncode chmax flags rxp = .ok (wire 2 [byte chmax, byte flags, byte rxp]) ∧
     (Serial.frameDecode (wire 2 [byte chmax, byte flags, byte rxp])).bind cmninfoDecode
-      = .ok (some (chmax, flags, rxp)) := sorry
+      = .ok (some (chmax, flags, rxp)) := Info.cmninfo_rt chmax flags rxp h1 h2 h3
 
 /-- divider / ACK support follow from the flags byte -/
 theorem flags_derived (flags : Nat) :
-    divSupported flags = flags.testBit 0 ∧ ackSupported flags = flags.testBit 1 := sorry
+    divSupported flags = flags.testBit 0 ∧ ackSupported flags = flags.testBit 1 :=
+  Info.flags_derived flags
 
 /-- channel info: enable state, the whole 8-bit type byte, dimension, divider, metadata length and
     the name arrive unchanged; the response is the NxScope encoding (frame id 3) -/
@@ -34,29 +36,31 @@ theorem chinfo_rt (en : Bool) (ty vdim div mlen : Nat) (name : Bytes)
     chinfoEncode ⟨en, ty, vdim, div, mlen, name⟩
       = .ok (wire 3 ([byte (b2n en), byte ty, byte vdim, byte div, byte mlen] ++ name)) ∧
     (Serial.frameDecode (wire 3 ([byte (b2n en), byte ty, byte vdim, byte div, byte mlen] ++ name))).bind
-        chinfoDecode = .ok (some ⟨en, ty, vdim, div, mlen, name⟩) := sorry
+        chinfoDecode = .ok (some ⟨en, ty, vdim, div, mlen, name⟩) :=
+  Info.chinfo_rt en ty vdim div mlen name ht hv hd hm hnul hfit
 
 /-- a device may terminate / pad the name with NUL bytes: same fields -/
 theorem chinfo_trailing_nul (en ty vdim div mlen : Byte) (name : Bytes) (k : Nat)
     (hnul : ∀ b ∈ name, b ≠ 0) :
     chinfoDecode ⟨3, [en, ty, vdim, div, mlen] ++ name ++ List.replicate k 0⟩
-      = .ok (some ⟨en ≠ 0, ty.toNat, vdim.toNat, div.toNat, mlen.toNat, name⟩) := sorry
+      = .ok (some ⟨en ≠ 0, ty.toNat, vdim.toNat, div.toNat, mlen.toNat, name⟩) :=
+  Info.chinfo_trailing_nul en ty vdim div mlen name k hnul
 
 /-- derived attributes: data type = low five bits, critical = top bit, reserved = bits 5,6 -/
 theorem type_derived (ty : Nat) (ht : ty ≤ 255) :
     dtypeOf ty = ty % 32 ∧ criticalOf ty = ty.testBit 7 ∧ typeResOf ty = (ty / 32 % 4) * 32 ∧
-    isValidOf ty = (ty % 32 != 0) := sorry
+    isValidOf ty = (ty % 32 != 0) := Info.type_derived_lt ty (by omega)
 
 /-- ACK: success exactly when the return code is 0, the code is preserved otherwise -/
 theorem ack_rt (r : Int) (hlo : -2147483648 ≤ r) (hhi : r ≤ 2147483647) :
     ackEncode r = .ok (wire 4 (i32le r)) ∧
     (Serial.frameDecode (wire 4 (i32le r))).bind ackDecode
-      = .ok (some (if r = 0 then (true, 0) else (false, r))) := sorry
+      = .ok (some (if r = 0 then (true, 0) else (false, r))) := Info.ack_rt r hlo hhi
 
 /-- frames of another kind are not mistaken for these responses -/
 theorem wrong_kind (fid : Nat) (d : Bytes) :
     (fid ≠ 2 → cmninfoDecode ⟨fid, d⟩ = .ok none) ∧ (fid ≠ 3 → chinfoDecode ⟨fid, d⟩ = .ok none) ∧
-    (fid ≠ 4 → ackDecode ⟨fid, d⟩ = .ok none) := sorry
+    (fid ≠ 4 → ackDecode ⟨fid, d⟩ = .ok none) := Info.wrong_kind fid d
 
 example : chinfoEncode ⟨true, 0x8a, 3, 200, 1, [0xc3, 0xa9]⟩
     = .ok (wire 3 [1, 0x8a, 3, 200, 1, 0xc3, 0xa9]) := by decide +kernel
